@@ -333,6 +333,8 @@ impl FixedMethod {
                         B_UU_KAR => self.buffer.push(B_UU),
                         B_RRI_KAR => self.buffer.push(B_RRI),
                         B_VOCALIC_RR => self.buffer.push(B_SANSKRIT_RR),
+                        B_SIGN_L => self.buffer.push(B_VOCALIC_L),
+                        B_SIGN_LL => self.buffer.push(B_SANSKRIT_LL),
                         B_E_KAR => self.buffer.push(B_E),
                         B_OI_KAR => self.buffer.push(B_OI),
                         B_O_KAR => self.buffer.push(B_O),
@@ -374,6 +376,14 @@ impl FixedMethod {
                         B_VOCALIC_RR => {
                             self.buffer.pop();
                             self.buffer.push(B_SANSKRIT_RR);
+                        }
+                        B_SIGN_L => {
+                            self.buffer.pop();
+                            self.buffer.push(B_VOCALIC_L);
+                        }
+                        B_SIGN_LL => {
+                            self.buffer.pop();
+                            self.buffer.push(B_SANSKRIT_LL);
                         }
                         B_E_KAR => {
                             self.buffer.pop();
